@@ -231,7 +231,11 @@ def run_batch(b):
         realnet.run_cases(acc, b["real"])
         return acc
     for case in b["cases"]:
-        execute(acc, case)
+        if case.get("twin"):
+            from bvm import twin
+            twin.twin_lifecycle(acc, case)
+        else:
+            execute(acc, case)
     return acc
 
 
@@ -274,6 +278,10 @@ def main(tier, seed):
     for nth in range(0, 130 if q else 160):
         cases.append({"seed": seed * 7919 + len(cases), "cause": "refused", "point": "during-connect", "role": "client", "strategy": "rw", "p": 0.02,
                       "transport": "TCP", "park": nth})
+    # a second node object in the same process: one connection ends (and is restarted) beside an open one, then the other ends
+    for i in range(16 if q else 320):
+        cases.append({"twin": True, "seed": seed * 3307 + i, "cause": ("local-close", "peer-dpr", "peer-disconnect", "peer-reset")[i % 4], "end_first": "AB"[(i // 4) % 2],
+                      "busy": (i // 8) % 2 == 1, "cause2": ("local-close", "peer-disconnect", "peer-dpr")[i % 3], "strategy": "rr" if i % 5 == 0 else "rw", "p": rng.choice([0.02, 0.1])})
     rng.shuffle(cases)
     nb = 16 if q else 64
     batches = [{"cases": cases[i::nb]} for i in range(nb)]
@@ -292,12 +300,16 @@ def main(tier, seed):
                           ["bounds are on the virtual clock (60 s) and the step counter; a wall-clock watchdog firing is inconclusive",
                            "refused connection follows Linux semantics observed on the real loopback: first send() raises ConnectionRefusedError, later ones BrokenPipeError",
                            "combinations the statement does not reach (close() before Open is a no-op, DPR outside Open) are left to C06's soft cells"],
-                          t0, extra_cov={"cells": cells}, require_counters=("executions", "restarts_ok", "consumer_returned", "real_loopback_ok"))
+                          t0, extra_cov={"cells": cells}, require_counters=("executions", "restarts_ok", "consumer_returned", "real_loopback_ok", "twin_node_executions", "other_node_still_working"))
 
 
 def replay(w):
     acc = harness.Acc()
-    execute(acc, w["witness"]["case"])
+    if w["witness"]["case"].get("twin"):
+        from bvm import twin
+        twin.twin_lifecycle(acc, w["witness"]["case"])
+    else:
+        execute(acc, w["witness"]["case"])
     for v in acc.violations:
         print("VIOLATION property=C08 replay=<this>", v["key"], v["what"][:400])
     return 1 if acc.violations else 0
